@@ -20,6 +20,7 @@ type Ev struct {
 	Field   string // source (write) or destination (read) expression
 	Order   string // byte order expression for binary.Read/Write ("" for raw byte copies)
 	Loop    int    // loop nesting depth
+	LoopInit string // "i := 0" for a three-clause loop
 	LoopX   string // innermost loop's range expression / condition
 	Cond    bool   // executed conditionally (inside an if/switch/func literal body)
 	BufSize string // for variable-length reads: how the buffer was sized
@@ -97,6 +98,50 @@ func exprStr(e ast.Expr) string { return types.ExprString(e) }
 // Extract lists the I/O events of fd in source order.
 func Extract(pkg *packages.Package, fd *ast.FuncDecl) []Ev {
 	info := pkg.TypesInfo
+	// locals defined exactly once by `x := EXPR` (and never assigned again): a write of such a
+	// local is a write of EXPR
+	defs := map[types.Object]ast.Expr{}
+	assigned := map[types.Object]int{}
+	ast.Inspect(fd.Body, func(n ast.Node) bool {
+		as, ok := n.(*ast.AssignStmt)
+		if !ok {
+			return true
+		}
+		for i, l := range as.Lhs {
+			id, ok := l.(*ast.Ident)
+			if !ok {
+				continue
+			}
+			obj := info.Defs[id]
+			if obj == nil {
+				obj = info.Uses[id]
+			}
+			if obj == nil {
+				continue
+			}
+			assigned[obj]++
+			if as.Tok == token.DEFINE && len(as.Lhs) == len(as.Rhs) && info.Defs[id] != nil {
+				defs[obj] = as.Rhs[i]
+			}
+		}
+		return true
+	})
+	resolve := func(e ast.Expr) ast.Expr {
+		for k := 0; k < 3; k++ {
+			id, ok := e.(*ast.Ident)
+			if !ok {
+				return e
+			}
+			obj := info.Uses[id]
+			if obj == nil || assigned[obj] != 1 || defs[obj] == nil {
+				return e
+			}
+			// only pure defining expressions (conversions, selectors, len, method calls on the
+			// receiver's fields such as Timestamp.Unix())
+			e = defs[obj]
+		}
+		return e
+	}
 	var out []Ev
 	var stack []ast.Node
 	ast.Inspect(fd.Body, func(n ast.Node) bool {
@@ -122,7 +167,7 @@ func Extract(pkg *packages.Package, fd *ast.FuncDecl) []Ev {
 				return true
 			}
 			ev.Kind, ev.Order = "write", exprStr(call.Args[1])
-			ev.Field = exprStr(call.Args[2])
+			ev.Field = exprStr(resolve(call.Args[2]))
 			ev.Width = SizeOf(info.TypeOf(call.Args[2]))
 		case full == "(*bytes.Buffer).Write":
 			ev.Kind = "write"
@@ -142,6 +187,8 @@ func Extract(pkg *packages.Package, fd *ast.FuncDecl) []Ev {
 				}
 			}
 			ev.Width, ev.Field = -1, exprStr(arg)
+		case full == "(*bytes.Buffer).WriteString":
+			ev.Kind, ev.Width, ev.Field = "write", -1, "[]byte("+exprStr(call.Args[0])+")"
 		case full == "(*bytes.Buffer).WriteByte":
 			ev.Kind, ev.Width, ev.Field = "write", 1, exprStr(call.Args[0])
 		case full == "encoding/binary.Read":
@@ -188,8 +235,18 @@ func Extract(pkg *packages.Package, fd *ast.FuncDecl) []Ev {
 			switch p := stack[i].(type) {
 			case *ast.ForStmt:
 				if within(stack[i+1], p.Body) {
+					// the single-pass `wvsaNL: for { …; break wvsaNL }` wrapper that helper
+					// normalisation puts around an inlined body is not a loop
+					if p.Cond == nil && p.Init == nil && p.Post == nil && i > 0 {
+						if ls, ok := stack[i-1].(*ast.LabeledStmt); ok && strings.HasPrefix(ls.Label.Name, "wvsa") {
+							continue
+						}
+					}
 					ev.Loop++
 					ev.LoopX = exprStr(p.Cond)
+					if as, ok := p.Init.(*ast.AssignStmt); ok && len(as.Lhs) == 1 && len(as.Rhs) == 1 {
+						ev.LoopInit = exprStr(as.Lhs[0]) + " := " + exprStr(as.Rhs[0])
+					}
 				}
 			case *ast.RangeStmt:
 				if within(stack[i+1], p.Body) {
